@@ -113,15 +113,18 @@ Definition expectation (g : graph) (root : nat) (phi : Q) (u : nat -> Q) : Q :=
 
 (* ---------------------------------------------------------------- *)
 (* The evaluator object as a state machine: two structure-only caches. *)
-Definition key_sub := (nat * nat)%type.          (* f"{root}-{G.name}" *)
-Definition key_edge := (list nat * nat)%type.    (* f"{c}-{G.name}", c a list *)
+(* G.name is modelled as a pair of numbers (MessagePassing names its motif graphs f"{focal}-{ID}") *)
+Definition mname := (nat * nat)%type.
+Definition mname_eqb (a b : mname) : bool := Nat.eqb (fst a) (fst b) && Nat.eqb (snd a) (snd b).
+Definition key_sub := (nat * mname)%type.          (* f"{root}-{G.name}" *)
+Definition key_edge := (list nat * mname)%type.    (* f"{c}-{G.name}", c a list *)
 Record caches := mk_caches {
   cc_sub : list (key_sub * list (list nat));
   cc_edge : list (key_edge * list nat) }.
 Definition caches_empty : caches := mk_caches [] [].
 
-Definition key_sub_eqb (a b : key_sub) : bool := Nat.eqb (fst a) (fst b) && Nat.eqb (snd a) (snd b).
-Definition key_edge_eqb (a b : key_edge) : bool := list_eqb (fst a) (fst b) && Nat.eqb (snd a) (snd b).
+Definition key_sub_eqb (a b : key_sub) : bool := Nat.eqb (fst a) (fst b) && mname_eqb (snd a) (snd b).
+Definition key_edge_eqb (a b : key_edge) : bool := list_eqb (fst a) (fst b) && mname_eqb (snd a) (snd b).
 
 Fixpoint alookup {K V} (eqb : K -> K -> bool) (k : K) (m : list (K * V)) : option V :=
   match m with
@@ -129,8 +132,7 @@ Fixpoint alookup {K V} (eqb : K -> K -> bool) (k : K) (m : list (K * V)) : optio
   | (k', v) :: m' => if eqb k k' then Some v else alookup eqb k m'
   end.
 
-(* a call names its motif; G.name is modelled as a number *)
-Definition get_connected_subgraphs (st : caches) (name : nat) (g : graph) (root : nat)
+Definition get_connected_subgraphs (st : caches) (name : mname) (g : graph) (root : nat)
   : list (list nat) * caches :=
   match alookup key_sub_eqb (root, name) (cc_sub st) with
   | Some r => (r, st)
@@ -138,7 +140,7 @@ Definition get_connected_subgraphs (st : caches) (name : nat) (g : graph) (root 
             (r, mk_caches (((root, name), r) :: cc_sub st) (cc_edge st))
   end.
 
-Definition get_edge_combinations (st : caches) (name : nat) (g : graph) (c : list nat)
+Definition get_edge_combinations (st : caches) (name : mname) (g : graph) (c : list nat)
   : list nat * caches :=
   match alookup key_edge_eqb (c, name) (cc_edge st) with
   | Some r => (r, st)
@@ -150,7 +152,7 @@ Section ArithState.
   Context {T : Type} (A : alg T).
   (* automated_equation on an evaluator with state [st]; None = the call raises
      (root not a vertex of G: networkx raises in G.neighbors(root), nothing is cached) *)
-  Definition auto_step (st : caches) (name : nat) (g : graph) (root : nat) (phi : T) (u : nat -> T)
+  Definition auto_step (st : caches) (name : mname) (g : graph) (root : nat) (phi : T) (u : nat -> T)
     : option T * caches :=
     if negb (memb root (g_nodes g)) then (None, st)
     else
@@ -213,7 +215,7 @@ Fixpoint run_calls (st : caches) (calls : list tree) : list tree :=
   match calls with
   | [] => []
   | cl :: rest =>
-      let name := t_nat (t_nth 0 cl) in
+      let name := (0, t_nat (t_nth 0 cl)) in
       let g := (t_nats (t_nth 1 cl), t_pairs (t_nth 2 cl)) in
       let root := t_nat (t_nth 3 cl) in
       let phi := t_sub (t_nth 4 cl) in
